@@ -39,6 +39,7 @@ func (in *Inst) watchPlan(n int) WatchPlan {
 			wp.Delay = p.Delay
 		}
 		wp.Pipe = p.Pipe
+		wp.Stall = p.Stall
 		if p.Only < 0 || p.Only == n {
 			wp.Drop = p.Drop
 			wp.CloseAfter = p.CloseAfter
